@@ -107,7 +107,14 @@ func c16Permute(r *RNG, ds []c16Decl) []c16Decl {
 
 // partition into files; non-hoistables are assigned non-decreasing file indexes so that the
 // name-sorted concatenation keeps their relative order
-func c16Files(r *RNG, ds []c16Decl, nfiles int) fstest.MapFS {
+func c16Files(r *RNG, ds []c16Decl, nfiles int) fstest.MapFS { return c16FilesAt(r, ds, nfiles, 0) }
+
+// where the package lives: 0 = "app" loaded directly; 1 = "lib/app" and 2 = "vendor/ex.com/app" (import path and
+// package name differ) imported by a main package that forwards Main
+var c16Dirs = []string{"app", "lib/app", "vendor/ex.com/app"}
+var c16Imports = []string{"", "lib/app", "ex.com/app"}
+
+func c16FilesAt(r *RNG, ds []c16Decl, nfiles int, mode int) fstest.MapFS {
 	bodies := make([][]string, nfiles)
 	cur := 0
 	for _, d := range ds {
@@ -122,7 +129,10 @@ func c16Files(r *RNG, ds []c16Decl, nfiles int) fstest.MapFS {
 	}
 	fs := fstest.MapFS{}
 	for i, b := range bodies {
-		fs[fmt.Sprintf("app/f%02d.go", i)] = &fstest.MapFile{Data: []byte("package app\n\n" + strings.Join(b, "\n\n") + "\n")}
+		fs[fmt.Sprintf("%s/f%02d.go", c16Dirs[mode], i)] = &fstest.MapFile{Data: []byte("package app\n\n" + strings.Join(b, "\n\n") + "\n")}
+	}
+	if mode != 0 {
+		fs["main/main.go"] = &fstest.MapFile{Data: []byte(fmt.Sprintf("package main\n\nimport %q\n\nfunc Main() {\n\tapp.Main()\n}\n", c16Imports[mode]))}
 	}
 	return fs
 }
@@ -135,17 +145,21 @@ func c16Run(fs fstest.MapFS) (out string) {
 	}()
 	var w bytes.Buffer
 	vm := goat.New(goat.WithStdout(&w))
-	if err := vm.Load(fs, "app"); err != nil {
+	top := "app"
+	if _, ok := fs["main/main.go"]; ok {
+		top = "main"
+	}
+	if err := vm.Load(fs, top); err != nil {
 		return w.String() + "LOAD ERROR " + err.Error()
 	}
-	if _, err := vm.Call("app.Main", 0); err != nil {
+	if _, err := vm.Call(top+".Main", 0); err != nil {
 		return w.String() + "CALL ERROR " + err.Error()
 	}
 	return w.String()
 }
 
 func runC16(c *Ctx) error {
-	c.Rep.Rule = "tsort: random lists of top-level node kinds (all table kinds, statement kinds, unknown kinds), length 0..40, permutation compared with the model; packages: generated packages (struct types, methods, mutually referring functions incl. forward references, chained consts, var initialisers with printed side effects, init) under random permutations of the hoistable declarations x random partitions into 1..4 files; distinct = distinct kind list / (package, permutation, partition); non-trivial = list has >= 2 different priorities / package has >= 6 declarations"
+	c.Rep.Rule = "tsort: random lists of top-level node kinds (all table kinds, statement kinds, unknown kinds), length 0..40, permutation compared with the model; packages: generated packages (struct types, methods, mutually referring functions incl. forward references, chained consts, var initialisers with printed side effects, init) under random permutations of the hoistable declarations x random partitions into 1..4 files, the package loaded directly or imported from a nested / vendored path (import path differs from the package name); distinct = distinct kind list / (package, permutation, partition); non-trivial = list has >= 2 different priorities / package has >= 6 declarations"
 	r := c.RNG
 	kinds := []string{"package", "import", "type", "const", "method", "function", "init", "var", ":=", "=", "call", "for", "if", "switch", "range", "return", "(name)", "+=", "block", "zzz"}
 	n := 3000
@@ -194,7 +208,9 @@ func runC16(c *Ctx) error {
 	}
 	for i := 0; i < np; i++ {
 		ds := c16Package(r)
-		base := c16Run(c16Files(NewRNG(1), ds, 1))
+		mode := r.Intn(3)
+		c.Rep.Count("package-at-" + c16Dirs[mode])
+		base := c16Run(c16FilesAt(NewRNG(1), ds, 1, mode))
 		c.Rep.Oracle["package-baseline"]++
 		if strings.Contains(base, "ERROR") || strings.Contains(base, "PANIC") {
 			c.Rep.Violate(Violation{Kind: "oracle", Cut: "package-baseline", Input: c16Text(ds), Impl: base, Oracle: "loads and runs"})
@@ -205,7 +221,7 @@ func runC16(c *Ctx) error {
 		}
 		for k := 0; k < nperm; k++ {
 			pd := c16Permute(r, ds)
-			fs := c16Files(r, pd, 1+r.Intn(4))
+			fs := c16FilesAt(r, pd, 1+r.Intn(4), mode)
 			got := c16Run(fs)
 			c.Rep.Oracle["package-permutation"]++
 			var names []string
